@@ -290,13 +290,13 @@ theorem step_bytes (s : State) (op : Op) (h : Inv s) (r : Nat) (hp : Protected s
             (s' := setSlot (setRegion s r0 { reg with bytes := reg.bytes.take len }) i (.mut r0 len)) rfl
       · rfl
     · rfl
-  | claim i =>
+  | claim i p =>
     simp only [step, opClaim]; split
     · rename_i r0 hb
       split
       · rename_i reg hr
-        show regionBytes (setRegion s r0 { reg with claimed := some reg.cap }) r = _
-        rw [regionBytes_set (s := s) (reg' := { reg with claimed := some reg.cap }) rfl hr]
+        show regionBytes (setRegion s r0 { reg with claimed := some reg.cap, claimPool := p }) r = _
+        rw [regionBytes_set (s := s) (reg' := { reg with claimed := some reg.cap, claimPool := p }) rfl hr]
         split
         · subst_vars; simp [regionBytes, hr]
         · rfl
@@ -438,7 +438,7 @@ theorem step_slots (s : State) (op : Op) (j : Nat) (hj : j ∉ op.targets) :
         · exact setSlot_other _ _ _ _ hj
       · rfl
     · rfl
-  | claim i =>
+  | claim i p =>
     simp only [step, opClaim]; split
     · split <;> rfl
     · rfl
